@@ -86,6 +86,12 @@ def run(repo, rep):
                   '%s.normalize normalises %s more than once on a path' % (cname, bad), nontrivial=True)
         if cname == 'FlatChoice':
             n += 1
+            reads = [a for a in ast.walk(nm.node) if isinstance(a, ast.Attribute) and a.attr in ('when_broken', 'when_flat')]
+            rep.check(not reads, 'C12.a', 'FlatChoice.normalize:no-accessor-read', nm.where, 'normalize does not touch the lazy accessors',
+                      'FlatChoice.normalize reads %s: the accessors normalise their alternative, so normalisation is eager again '
+                      '(both subtrees of every choice are normalised: exponential in the nesting depth)' % sorted({a.attr for a in reads}),
+                      nontrivial=True)
+            n += 1
             rep.check(not calls, 'C12.a', 'FlatChoice.normalize:lazy', nm.where, 'neither alternative normalised eagerly',
                       'FlatChoice.normalize normalises %s eagerly: both subtrees are normalised although the layout uses one '
                       '(the 0.15.0 exponential blow-up)' % [src(c) for c in calls], nontrivial=True)
